@@ -27,6 +27,8 @@ METHODS = [
     ("getFantasyModel", "gpytorch/models/exact_gp.py", "ExactGP", "get_fantasy_model"),
     ("fixedNoiseFantasyLikelihood", "gpytorch/likelihoods/gaussian_likelihood.py", "FixedNoiseGaussianLikelihood",
      "get_fantasy_likelihood"),
+    ("dirichletFantasyLikelihood", "gpytorch/likelihoods/gaussian_likelihood.py", "DirichletClassificationLikelihood",
+     "get_fantasy_likelihood"),
 ]
 
 
